@@ -103,7 +103,20 @@ pub fn gen_rv_comp(ch: &mut Ch, dim: usize, mode: BoundsMode) -> Comp {
     }
 }
 pub fn gen_so2_comp(ch: &mut Ch, mode: BoundsMode) -> Comp {
-    match ch.weighted(&[3.0, 2.0, 2.0, 1.0]) {
+    match ch.weighted(&[3.0, 2.0, 2.0, 1.0, 0.6]) {
+        4 => {
+            // a requested interval that sticks out of [-pi, pi]: the constructor clamps it
+            // (span <= pi after clamping, so the region stays convex)
+            if ch.prob(0.5) {
+                Comp::SO2 {
+                    bounds: Some((-4.0, ch.range(-PI + 0.3, 0.0))),
+                }
+            } else {
+                Comp::SO2 {
+                    bounds: Some((ch.range(0.0, PI - 0.3), ch.pick(&[4.0, 5.0, 3.5]))),
+                }
+            }
+        }
         0 => Comp::SO2 { bounds: None },
         1 => {
             // span <= pi
